@@ -27,6 +27,7 @@ structure Mon where
   nasAddr : List Bytes := []
   tx : List (String × Bytes × Nat × Nat) := []      -- (server, packet, time of last transmission, transmissions so far)
   now : Nat := 0
+  delivered : List (Nat × UInt8 × Bytes × String) := []   -- (client, its request's identifier, the server's reply, server)
 
 def sections (out : String) : List String := (out.splitOn " | ")
 
@@ -75,18 +76,52 @@ def srvConfOf (m : Mon) (name : String) : Option World.SrvConf :=
 
 def H : Hashes := realHashes
 
+def rwTouches (rw : Option Rewrite.Rewrite) (t : UInt8) : Bool :=
+  match rw with
+  | none => false
+  | some r =>
+    r.whitelist ||
+    (r.rmAttrs.getD []).contains t || t = 0 && r.rmAttrs.isSome ||
+    (t = 26 && (r.rmVAttrs.isSome || r.modVAttrs.isSome)) ||
+    ((r.modAttrs.getD []).any (·.t = t)) ||
+    ((r.addAttrs.getD []).any (·.t = t)) || ((r.supAttrs.getD []).any (·.t = t))
+
+/-- sub-attributes of a vendor payload; none when the layout is broken -/
+def subsOf : Nat → Bytes → Option (List (UInt8 × Bytes))
+  | 0, _ => none
+  | _, [] => some []
+  | fuel+1, t :: lb :: tail =>
+    if lb.toNat < 2 || tail.length < lb.toNat - 2 then none
+    else (subsOf fuel (tail.drop (lb.toNat - 2))).map fun r => (t, tail.take (lb.toNat - 2)) :: r
+  | _, _ => none
+
+/-- the value of the TTL attribute of a packet (C13), if it has one -/
+def ttlOf (tt : Nat × Nat) (attrs : List (UInt8 × Bytes)) : Option Bytes :=
+  if tt.2 = 256 then (attrs.find? (·.1.toNat = tt.1)).map (·.2)
+  else attrs.findSome? fun (t, v) =>
+    if t = 26 && v.length > 4 && beVal (v.take 4) = tt.1 then
+      (subsOf (v.length + 1) (v.drop 4)).bind fun subs => (subs.find? (·.1.toNat = tt.2)).map (·.2)
+    else none
+
+/-- C13 on one hop: `inp` as received, `out` as passed on, `add` the AddTTL value in effect -/
+def ttlVerdict (tt : Nat × Nat) (add : Nat) (inp out : Bytes) (what : String) : String :=
+  match ttlOf tt (attrsOf inp) with
+  | some v =>
+    if beVal v < 2 then "bad C13:" ++ what ++ "-passed-on-though-its-ttl-was-exhausted"
+    else if ttlOf tt (attrsOf out) != some (beEnc v.length (beVal v - 1)) then "bad C13:" ++ what ++ "-ttl-not-decremented-by-one"
+    else "ok"
+  | none =>
+    if add ≠ 0 then
+      (if ttlOf tt (attrsOf out) != some (beEnc 4 add) then "bad C13:" ++ what ++ "-without-ttl-did-not-get-AddTTL" else "ok")
+    else if (ttlOf tt (attrsOf out)).isSome then "bad C13:" ++ what ++ "-got-a-ttl-though-AddTTL-is-unset" else "ok"
+
+def ttlSkips (tt : Nat × Nat) (rws : List (Option Rewrite.Rewrite)) : Bool :=
+  let t : UInt8 := if tt.2 = 256 then UInt8.ofNat tt.1 else 26
+  rws.any (rwTouches · t) || (tt.2 = 256 && (tt.1 = 1 || tt.1 = 2 || tt.1 = 60 || tt.1 = 80 || tt.1 = 26 || tt.1 ≥ 256))
+
 /-- attribute types a forwarded request may legitimately differ in from the client's packet (C01) -/
 def touchedReq (m : Mon) (cc : World.CliConf) (sc : World.SrvConf) (t : UInt8) : Bool :=
-  let rwTouches (rw : Option Rewrite.Rewrite) : Bool :=
-    match rw with
-    | none => false
-    | some r =>
-      r.whitelist ||
-      (r.rmAttrs.getD []).contains t || t = 0 && r.rmAttrs.isSome ||
-      (t = 26 && (r.rmVAttrs.isSome || r.modVAttrs.isSome)) ||
-      ((r.modAttrs.getD []).any (·.t = t)) ||
-      ((r.addAttrs.getD []).any (·.t = t)) || ((r.supAttrs.getD []).any (·.t = t))
-  rwTouches cc.rwIn || rwTouches sc.rwOut ||
+  rwTouches cc.rwIn t || rwTouches sc.rwOut t ||
   t = 80 || t = 2 || t = 60 || (t = 1 && cc.rwUser.isSome) ||
   (if m.cfg.opts.ttlType.2 = 256 then t.toNat = m.cfg.opts.ttlType.1 else t = 26)
 
@@ -146,9 +181,12 @@ def monOp (m : Mon) (op : String) (args : List String) (impl : List String) : Mo
                  else if !requestOk H sc.secret b then "bad C06:forwarded-request-malformed-or-unauthenticated"
                  else if codeOf b != codeOf pkt then "bad C01:code-changed"
                  else if !frameOk m cc sc pkt b then "bad C01:untouched-attributes-not-preserved"
-                 else "ok")
+                 else if World.loopPrevents m.cfg.opts cc sc then "bad C13:request-forwarded-back-to-the-peer-it-came-from"
+                 else if ttlSkips m.cfg.opts.ttlType [cc.rwIn, sc.rwOut] then "ok"
+                 else ttlVerdict m.cfg.opts.ttlType (World.effAddTtl m.cfg.opts sc.addttl) pkt b "request")
             | [] => "ok"
         let m := { m with recv := (k, pkt) :: m.recv,
+                          delivered := m.delivered.filter fun (j, i, _, _) => !(j = k && i == idOf pkt),
                           fwds := (fwdToks.map fun (s, sl, b) => { srv := s, slot := sl, pkt := b, client := k, rq := pkt }) ++ m.fwds }
         (resync m out, verdict)
     | _, _ => (m, "bad-op")
@@ -201,6 +239,9 @@ def monOp (m : Mon) (op : String) (args : List String) (impl : List String) : Mo
              else if j ≠ f.client then "bad C02:delivered-to-wrong-client"
              else "ok")
         | _ => "bad C02:delivered-to-several-clients"
+      let m := match grown, fwd with
+        | [j], some f => { m with delivered := (j, idOf f.rq, pkt, name) :: m.delivered }
+        | _, _ => m
       (resync m out, verdict)
     | _, _ => (m, "bad-op")
   | "pop", [k] =>
@@ -219,7 +260,15 @@ def monOp (m : Mon) (op : String) (args : List String) (impl : List String) : Mo
           -- valid for (at least) one of the requests this client sent with that identifier
           else if !(cands.any fun (_, rq) => replyOk H cc.secret (authOf rq) b) then "bad C06:reply-malformed-or-not-authenticated-for-this-client"
           else if (codeOf b = 42 || codeOf b = 45) && !((attrsOf b).any fun (t, v) => t = 101 && v == beEnc 4 406) then "bad C05:nak-without-error-cause-406"
-            else "ok") "ok"
+          else
+            match m.delivered.find? fun (j, i, _, _) => j = k && i == idOf b with
+            | none => "ok"
+            | some (_, _, rep, sname) =>
+              (match srvConfOf m sname with
+               | none => "ok"
+               | some sc =>
+                 if ttlSkips m.cfg.opts.ttlType [sc.rwIn, cc.rwOut] then "ok"
+                 else ttlVerdict m.cfg.opts.ttlType (World.effAddTtl m.cfg.opts cc.addttl) rep b "reply")) "ok"
         (resync m out, verdict)
     | none => (m, "bad-op")
   | "rewrite", name :: attrs =>
